@@ -100,7 +100,6 @@ int getaddrinfo(const char *node, const char *service, const struct addrinfo *hi
 	struct addrinfo *ai;
 	struct sockaddr_in *sa;
 	int rc = 0, idx;
-	(void)hints;
 	sn_calls++;
 	snprintf(sn_last_host, sizeof sn_last_host, "%s", node ? node : "");
 	snprintf(sn_last_port, sizeof sn_last_port, "%s", service ? service : "");
@@ -116,6 +115,9 @@ int getaddrinfo(const char *node, const char *service, const struct addrinfo *hi
 	sa->sin_addr.s_addr = htonl(0x0a000000u | (unsigned)idx);
 	ai->ai_family = AF_INET;
 	ai->ai_socktype = SOCK_STREAM;
+	/* like the real resolver: the protocol asked for in the hints (the TCP clients skip every result
+	 * whose ai_protocol is not IPPROTO_TCP) */
+	ai->ai_protocol = (hints && hints->ai_protocol) ? hints->ai_protocol : IPPROTO_TCP;
 	ai->ai_addr = (struct sockaddr *)sa;
 	ai->ai_addrlen = sizeof *sa;
 	*res = ai;
